@@ -219,7 +219,8 @@ func HarnessC08NoPublisher() {
 	m := NewMessage("m", nil)
 	if vrt.Bool("arrives.enriched") {
 		// the message object was handled before by a handler (of any router) that had a publish topic
-		c := context.WithValue(context.Background(), handlerNameKey, "other")
+		// (of this or of another router: the other handler may even have the same name)
+		c := context.WithValue(context.Background(), handlerNameKey, vrt.PickStr("prior.handler", "other", "N"))
 		c = context.WithValue(c, subscribeTopicKey, "other-in")
 		c = context.WithValue(c, publishTopicKey, "other-out")
 		m.SetContext(c)
